@@ -86,7 +86,7 @@ theorem mandatory_enforced (sender : Role) (buf : Bytes) (m : PMap) (h : parse s
 
 example : parse .client [0x0f, 0x01, 0xaa] = some [(15, .cid [0xaa])] := by decide
 example : parse .server [0x0f, 0x01, 0xaa] = none := by decide          -- odcid missing
-example : parse .client [0x0f, 0x01, 0xaa, 0x0b, 0x02, 0x80, 0x00] = none := by decide   -- over-long… 2-byte varint 0x8000 is truncated
+example : parse .client [0x0f, 0x01, 0xaa, 0x0b, 0x02, 0x80, 0x00] = none := by decide   -- max_ack_delay: 4-byte varint prefix inside a 2-byte value
 
 /-- The stream limits of an accepted set never reach `assert!(val <= MAX_STREAMS_LIMIT)` of
 `LocalStreamIds::increase_limit` (DESIGN §7 #23: a peer-triggerable panic on the pinned tree). -/
@@ -115,6 +115,10 @@ theorem accepted_streams_within_limit (sender : Role) (buf : Bytes) (m : PMap) (
     rw [accepts_eq] at hacc
     rcases hid with rfl | rfl <;>
       (simp [GmQuic.Gen.Params.table, viewOf, rowLegal, GmQuic.Spec.Rfc9000Params.inRange] at hacc; omega)
+
+example : parse .client [0x08, 0x01, 0x05, 0x0f, 0x01, 0xaa] = some [(15, .cid [0xaa]), (8, .varint 5)] ∧
+    getVarint [(15, .cid [0xaa]), (8, .varint 5)] 8 = some 5 := by decide
+example : parse .client [0x08, 0x08, 0xd0, 0, 0, 0, 0, 0, 0, 0, 0x0f, 0x01, 0xaa] = none := by decide   -- 2^60 refused
 
 /-! ## 3. the connection-level object: READY ⇔ received ∧ legal ∧ mandatory ∧ declared cids = observed cids -/
 
@@ -255,6 +259,9 @@ theorem no_waiter_left_at_ready (s0 : St) (h0 : s0.core.ready = true → s0.wake
           simp only [hr', Bool.true_and, Bool.not_eq_true', Bool.not_eq_false] at hnt
           simpa using hnt
         exact h0 this
+
+example : (run { core := { role := .server } } [.poll, .recv [0x0f, 0x01, 0xaa], .poll, .scid [0xaa]]).wakes = 2 ∧
+    (run { core := { role := .server } } [.poll, .recv [0x0f, 0x01, 0xaa], .poll, .scid [0xaa]]).wakers = 0 := by decide
 
 /-! ## 5. idle timeout (RFC 9000 §10.1) and 0-RTT (§7.4.1) -/
 
